@@ -100,11 +100,11 @@ impl FileDataSequenceHeader {
 }
 
 proof fn lemma_file_block_keeps(w0: VxW, w1: VxW, p: int, f: MDBFileInfo)
-    requires keeps(w0, w1), file_block_ok(w0.bytes@, p, f), 0 <= p, p + 48 + 48 * following(f.metadata) <= w0.len(), file_info_wf(f),
-    ensures file_block_ok(w1.bytes@, p, f),
+    requires keeps(w0, w1), file_block_ok(w0.out@, p, f), 0 <= p, p + 48 + 48 * following(f.metadata) <= w0.len(), file_info_wf(f),
+    ensures file_block_ok(w1.out@, p, f),
 {
     let n = f.metadata.num_entries as int;
-    let d0 = w0.bytes@; let d1 = w1.bytes@;
+    let d0 = w0.out@; let d1 = w1.out@;
     assert(decodes(d0, p, Tok::FileHdr(f.metadata)));
     assert forall|j: int| 0 <= j < n implies #[trigger] f.segments@[j] == file_entry_at(d1, p + 48 + 48 * j) by {
         assert(decodes(d0, p + 48 + 48 * j, Tok::FileEntry(f.segments@[j])));
@@ -134,7 +134,7 @@ impl MDBFileInfo {
                 && final(writer).len() == old(writer).len() + n
                 && keeps(*old(writer), *final(writer))
                 // the block written at the old end of the output decodes (U-SHSCAN's `MDBFileInfo::deserialize` contract) to *self
-                && file_block_ok(final(writer).bytes@, old(writer).len(), *self),
+                && file_block_ok(final(writer).out@, old(writer).len(), *self),
 //@ after `let mut bytes_written = 0;`
         let ghost w0 = *writer; let ghost p = writer.len(); let ghost nn = self.metadata.num_entries as int;
 //@ loop 1
@@ -142,16 +142,16 @@ impl MDBFileInfo {
                 file_info_wf(*self), nn == self.metadata.num_entries, p == w0.len(), w0 == *old(writer),
                 refs_of(vx_it1.seq(), self.segments@),
                 bytes_written == 48 + 48 * vx_it1.index@, writer.len() == p + bytes_written, keeps(w0, *writer),
-                decodes(writer.bytes@, p, Tok::FileHdr(self.metadata)),
-                forall|j: int| 0 <= j < vx_it1.index@ ==> decodes(writer.bytes@, p + 48 + 48 * j, Tok::FileEntry(#[trigger] self.segments@[j])),
+                decodes(writer.out@, p, Tok::FileHdr(self.metadata)),
+                forall|j: int| 0 <= j < vx_it1.index@ ==> decodes(writer.out@, p + 48 + 48 * j, Tok::FileEntry(#[trigger] self.segments@[j])),
 //@ loop 2
                 invariant
                     file_info_wf(*self), nn == self.metadata.num_entries, p == w0.len(), w0 == *old(writer), has_verif(self.metadata),
                     refs_of(vx_it2.seq(), self.verification@),
                     bytes_written == 48 + 48 * nn + 48 * vx_it2.index@, writer.len() == p + bytes_written, keeps(w0, *writer),
-                    decodes(writer.bytes@, p, Tok::FileHdr(self.metadata)),
-                    forall|j: int| 0 <= j < nn ==> decodes(writer.bytes@, p + 48 + 48 * j, Tok::FileEntry(#[trigger] self.segments@[j])),
-                    forall|j: int| 0 <= j < vx_it2.index@ ==> decodes(writer.bytes@, p + 48 + 48 * nn + 48 * j, Tok::Verif(#[trigger] self.verification@[j])),
+                    decodes(writer.out@, p, Tok::FileHdr(self.metadata)),
+                    forall|j: int| 0 <= j < nn ==> decodes(writer.out@, p + 48 + 48 * j, Tok::FileEntry(#[trigger] self.segments@[j])),
+                    forall|j: int| 0 <= j < vx_it2.index@ ==> decodes(writer.out@, p + 48 + 48 * nn + 48 * j, Tok::Verif(#[trigger] self.verification@[j])),
 //@ end
 }
 
@@ -159,6 +159,11 @@ impl MDBFileInfo {
 spec fn spec_truncate(h: MerkleHash) -> u64 { h.0[0] }
 #[verifier::external_body]
 fn truncate_hash(hash: &MerkleHash) -> (r: u64) ensures r == spec_truncate(*hash) { unimplemented!() }
+
+// ASSUMED (trusted axiom): `Eq`/`PartialOrd`/`Ord` of DataHash satisfy vstd's ordering laws, i.e. std's BTreeMap behaves as an
+// ordered map for this key type.  (`Ord::cmp` is `self.0.cmp(&other.0)`, lexicographic on four u64 words: a total order.)
+#[verifier::external_body]
+proof fn axiom_merklehash_total_order() ensures vstd::laws_cmp::obeys_cmp::<MerkleHash>() {}
 
 // ---- a BTreeMap's entries in iteration order -----------------------------------------------------------------------------
 // what vstd's specification of `BTreeMap::iter` gives for the sequence of items the iterator yields
@@ -182,6 +187,7 @@ proof fn lemma_entries_from_iter<V>(r: Seq<(&MerkleHash, &V)>, m: Map<MerkleHash
 {
     let s = own(r);
     let ks = r.map_values(|kv: (&MerkleHash, &V)| *kv.0);
+    axiom_merklehash_total_order();
     axiom_increasing_seq_meaning::<MerkleHash>(ks);
     assert forall|i: int, j: int| 0 <= i < j < s.len() implies hash_lt((#[trigger] s[i]).0, (#[trigger] s[j]).0) by {
         assert(ks[i] == s[i].0 && ks[j] == s[j].0);
@@ -237,7 +243,7 @@ spec fn conv_file_inv(s: Seq<(MerkleHash, MDBFileInfo)>, w0: VxW, w: VxW, keys: 
     &&& keys.len() == i && vals.len() == i
     &&& forall|k: int| 0 <= k < i ==> #[trigger] keys[k] == spec_truncate(s[k].0)
     &&& forall|k: int| 0 <= k < i ==> p0 + 48 * (#[trigger] vals[k]) == file_pos(p0, sec, k)
-    &&& forall|k: int| 0 <= k < i ==> file_block_ok(w.bytes@, #[trigger] file_pos(p0, sec, k), s[k].1)
+    &&& forall|k: int| 0 <= k < i ==> file_block_ok(w.out@, #[trigger] file_pos(p0, sec, k), s[k].1)
 }
 // what convert_and_save_file_info produced, for the entry order s
 spec fn conv_file_post(s: Seq<(MerkleHash, MDBFileInfo)>, w0: VxW, w1: VxW, keys: Seq<u64>, vals: Seq<u32>, n: int) -> bool {
@@ -249,20 +255,20 @@ spec fn conv_file_post(s: Seq<(MerkleHash, MDBFileInfo)>, w0: VxW, w1: VxW, keys
     &&& forall|k: int| 0 <= k < cnt ==> p0 + 48 * (#[trigger] vals[k]) == file_pos(p0, sec, k)
     &&& forall|i: int, j: int| 0 <= i <= j < cnt ==> #[trigger] keys[i] <= #[trigger] keys[j]
     // the bytes are the section (U-SHSCAN's model) of exactly these records, each block decoding to the in-memory record
-    &&& file_section(w1.bytes@, p0, sec)
-    &&& forall|k: int| 0 <= k < cnt ==> file_block_ok(w1.bytes@, #[trigger] file_pos(p0, sec, k), s[k].1)
+    &&& file_section(w1.out@, p0, sec)
+    &&& forall|k: int| 0 <= k < cnt ==> file_block_ok(w1.out@, #[trigger] file_pos(p0, sec, k), s[k].1)
 }
 // the loop is done and the bookend has been written: the section is complete
 proof fn lemma_conv_file_done(s: Seq<(MerkleHash, MDBFileInfo)>, m: Map<MerkleHash, MDBFileInfo>, w0: VxW, wb: VxW, w1: VxW,
         keys: Seq<u64>, vals: Seq<u32>, index: int)
     requires
         is_entries(s, m), files_ok(m), conv_file_inv(s, w0, wb, keys, vals, index, s.len() as int),
-        keeps(wb, w1), w1.len() == wb.len() + 48, file_hdr_at(w1.bytes@, wb.len()).file_hash == bookend_hash(),
+        keeps(wb, w1), w1.len() == wb.len() + 48, file_hdr_at(w1.out@, wb.len()).file_hash == bookend_hash(),
     ensures conv_file_post(s, w0, w1, keys, vals, 48 * index + 48),
 {
     let sec = file_hdrs(s); let p0 = w0.len(); let cnt = s.len() as int;
-    assert forall|k: int| 0 <= k < cnt implies file_block_ok(w1.bytes@, #[trigger] file_pos(p0, sec, k), s[k].1)
-        && file_hdr_at(w1.bytes@, file_pos(p0, sec, k)) == sec[k] && sec[k].file_hash != bookend_hash() by {
+    assert forall|k: int| 0 <= k < cnt implies file_block_ok(w1.out@, #[trigger] file_pos(p0, sec, k), s[k].1)
+        && file_hdr_at(w1.out@, file_pos(p0, sec, k)) == sec[k] && sec[k].file_hash != bookend_hash() by {
         lemma_file_pos_step(p0, sec, k);
         lemma_file_pos_mono(p0, sec, k + 1, cnt);
         lemma_file_pos_mono(p0, sec, 0, k);
@@ -290,6 +296,7 @@ impl MDBShardInfo {
         let ghost w0 = *writer; let ghost p0 = writer.len(); let ghost m = file_content@;
         let ghost mut wb = *writer;
         proof {
+            axiom_merklehash_total_order();
             assert forall|r: Seq<(&MerkleHash, &MDBFileInfo)>| #[trigger] iter_entries(r, m) implies is_entries(own(r), m) by { lemma_entries_from_iter(r, m); }
         }
 //@ loop 1
@@ -316,7 +323,7 @@ impl MDBShardInfo {
 //@ after `let bytes = content.serialize(writer)?;`
             proof {
                 let s = own(vx_it1.seq()); let sec = file_hdrs(s); let i = vx_it1.index@ as int;
-                assert forall|k: int| 0 <= k < i implies file_block_ok(writer.bytes@, #[trigger] file_pos(p0, sec, k), s[k].1) by {
+                assert forall|k: int| 0 <= k < i implies file_block_ok(writer.out@, #[trigger] file_pos(p0, sec, k), s[k].1) by {
                     lemma_file_pos_step(p0, sec, k);
                     lemma_file_pos_mono(p0, sec, k + 1, i);
                     lemma_file_pos_mono(p0, sec, 0, k);
@@ -336,6 +343,1129 @@ impl MDBShardInfo {
             lemma_conv_file_done(ents, m, w0, wb, *writer, file_lookup_keys@, file_lookup_vals@, index as int);
         }
 //@ end
+}
+
+// ---- cas section + chunk lookup -----------------------------------------------------------------------------------------------
+spec fn cas_info_wf(b: MDBCASInfo) -> bool { b.chunks@.len() == b.metadata.num_entries }
+spec fn cas_ok(m: Map<MerkleHash, Arc<MDBCASInfo>>) -> bool {
+    forall|k: MerkleHash| #[trigger] m.contains_key(k) ==> cas_info_wf(*m[k]) && m[k].metadata.cas_hash == k && k != bookend_hash()
+}
+spec fn cas_hdrs(s: Seq<(MerkleHash, Arc<MDBCASInfo>)>) -> Seq<CASChunkSequenceHeader> { Seq::new(s.len(), |k: int| s[k].1.metadata) }
+proof fn lemma_cas_pos_mono(off: int, sec: Seq<CASChunkSequenceHeader>, a: int, b: int)
+    requires 0 <= a <= b <= sec.len(),
+    ensures cas_pos(off, sec, a) <= cas_pos(off, sec, b),
+    decreases b - a,
+{
+    if a < b { lemma_cas_pos_mono(off, sec, a, b - 1); lemma_cas_pos_step(off, sec, b - 1); }
+}
+proof fn lemma_cas_pos_shift(off: int, sec: Seq<CASChunkSequenceHeader>, k: int)
+    requires 0 <= k <= sec.len(),
+    ensures cas_pos(off, sec, k) == off + cas_pos(0, sec, k),
+    decreases k,
+{
+    if k > 0 { lemma_cas_pos_shift(off, sec, k - 1); }
+}
+proof fn lemma_cas_block_keeps(w0: VxW, w1: VxW, p: int, b: MDBCASInfo)
+    requires keeps(w0, w1), cas_block_ok(w0.out@, p, b), 0 <= p, p + 48 + 48 * b.metadata.num_entries <= w0.len(),
+    ensures cas_block_ok(w1.out@, p, b),
+{
+    let d0 = w0.out@; let d1 = w1.out@;
+    assert(decodes(d0, p, Tok::CasHdr(b.metadata)));
+    assert forall|j: int| 0 <= j < b.chunks@.len() implies #[trigger] b.chunks@[j] == cas_entry_at(d1, p + 48 + 48 * j) by {
+        assert(decodes(d0, p + 48 + 48 * j, Tok::CasEntry(b.chunks@[j])));
+    }
+}
+// number of chunks in the first k blocks
+spec fn chunk_total(s: Seq<(MerkleHash, Arc<MDBCASInfo>)>, k: int) -> int decreases k {
+    if k <= 0 { 0 } else { chunk_total(s, k - 1) + s[k - 1].1.chunks@.len() }
+}
+// the chunk-lookup pair (key, val) names chunk j of block k: truncated chunk hash, (ordinal of the block header, chunk index)
+spec fn names_chunk(s: Seq<(MerkleHash, Arc<MDBCASInfo>)>, p0: int, key: u64, val: (u32, u32), k: int, j: int) -> bool {
+    &&& 0 <= k < s.len() && 0 <= j < s[k].1.chunks@.len()
+    &&& key == spec_truncate(s[k].1.chunks@[j].chunk_hash)
+    &&& p0 + 48 * val.0 == cas_pos(p0, cas_hdrs(s), k) && val.1 == j
+}
+spec fn pair_named(s: Seq<(MerkleHash, Arc<MDBCASInfo>)>, p0: int, key: u64, val: (u32, u32), nb: int, nj: int) -> bool {
+    exists|k: int, j: int| #[trigger] names_chunk(s, p0, key, val, k, j) && (k < nb || (k == nb && j < nj))
+}
+spec fn chunk_listed(s: Seq<(MerkleHash, Arc<MDBCASInfo>)>, p0: int, keys: Seq<u64>, vals: Seq<(u32, u32)>, k: int, j: int) -> bool {
+    exists|t: int| 0 <= t < keys.len() && #[trigger] names_chunk(s, p0, keys[t], vals[t], k, j)
+}
+// the pairs (keys[t], vals[t]) are exactly one per chunk of the first nb blocks plus the first nj chunks of block nb
+spec fn chunk_pairs(s: Seq<(MerkleHash, Arc<MDBCASInfo>)>, p0: int, keys: Seq<u64>, vals: Seq<(u32, u32)>, nb: int, nj: int) -> bool {
+    &&& keys.len() == vals.len() && keys.len() == chunk_total(s, nb) + nj
+    &&& forall|t: int| 0 <= t < keys.len() ==> pair_named(s, p0, #[trigger] keys[t], vals[t], nb, nj)
+    &&& forall|k: int, j: int| 0 <= k < s.len() && 0 <= j < s[k].1.chunks@.len() && (k < nb || (k == nb && j < nj))
+            ==> #[trigger] chunk_listed(s, p0, keys, vals, k, j)
+}
+spec fn pairs_of(keys: Seq<u64>, vals: Seq<(u32, u32)>) -> Seq<(u64, (u32, u32))> { Seq::new(keys.len(), |t: int| (keys[t], vals[t])) }
+spec fn deref_pairs(c: Seq<(&u64, &(u32, u32))>) -> Seq<(u64, (u32, u32))> { Seq::new(c.len(), |t: int| (*c[t].0, *c[t].1)) }
+
+spec fn keys_collected(r: Seq<u64>, c: Seq<(&u64, &(u32, u32))>) -> bool { r.len() == c.len() && forall|t: int| 0 <= t < r.len() ==> #[trigger] r[t] == *c[t].0 }
+spec fn vals_collected(r: Seq<(u32, u32)>, c: Seq<(&u64, &(u32, u32))>) -> bool { r.len() == c.len() && forall|t: int| 0 <= t < r.len() ==> #[trigger] r[t] == *c[t].1 }
+// R7 outlines of the iterator chains around the sort of the chunk lookup table (each body is the original expression)
+#[verifier::external_body]
+fn vx_zip_collect<'a>(chunk_lookup_keys: &'a Vec<u64>, chunk_lookup_vals: &'a Vec<(u32, u32)>) -> (r: Vec<(&'a u64, &'a (u32, u32))>)
+    requires chunk_lookup_keys@.len() == chunk_lookup_vals@.len(),
+    ensures deref_pairs(r@) == pairs_of(chunk_lookup_keys@, chunk_lookup_vals@),
+{ chunk_lookup_keys.iter().zip(chunk_lookup_vals.iter()).collect::<Vec<_>>() }
+// `sort_unstable_by_key(|&(k, _)| k)`: contract = a permutation of the input, ordered by key (nothing else is assumed)
+#[verifier::external_body]
+fn vx_sort_by_key(chunk_lookup_combined: &mut Vec<(&u64, &(u32, u32))>)
+    ensures
+        deref_pairs(final(chunk_lookup_combined)@).to_multiset() == deref_pairs(old(chunk_lookup_combined)@).to_multiset(),
+        forall|a: int, b: int| 0 <= a <= b < final(chunk_lookup_combined)@.len() ==> *(#[trigger] final(chunk_lookup_combined)@[a]).0 <= *(#[trigger] final(chunk_lookup_combined)@[b]).0,
+{ chunk_lookup_combined.sort_unstable_by_key(|&(k, _)| k); }
+#[verifier::external_body]
+fn vx_collect_keys(chunk_lookup_combined: &Vec<(&u64, &(u32, u32))>) -> (r: Vec<u64>)
+    ensures keys_collected(r@, chunk_lookup_combined@),
+{ chunk_lookup_combined.iter().map(|&(k, _)| *k).collect() }
+#[verifier::external_body]
+fn vx_collect_vals(chunk_lookup_combined: &Vec<(&u64, &(u32, u32))>) -> (r: Vec<(u32, u32)>)
+    ensures vals_collected(r@, chunk_lookup_combined@),
+{ chunk_lookup_combined.iter().map(|&(_, v)| *v).collect() }
+
+// a sorted permutation of the unsorted table still names exactly the chunks
+proof fn lemma_sorted_pairs(s: Seq<(MerkleHash, Arc<MDBCASInfo>)>, p0: int, fk: Seq<u64>, fv: Seq<(u32, u32)>, sk: Seq<u64>, sv: Seq<(u32, u32)>)
+    requires
+        chunk_pairs(s, p0, fk, fv, s.len() as int, 0), sk.len() == sv.len(),
+        pairs_of(sk, sv).to_multiset() == pairs_of(fk, fv).to_multiset(),
+    ensures chunk_pairs(s, p0, sk, sv, s.len() as int, 0),
+{
+    let f = pairs_of(fk, fv); let g = pairs_of(sk, sv); let nb = s.len() as int;
+    f.to_multiset_ensures(); g.to_multiset_ensures();
+    assert forall|t: int| 0 <= t < sk.len() implies pair_named(s, p0, #[trigger] sk[t], sv[t], nb, 0) by {
+        assert(g[t] == (sk[t], sv[t]));
+        assert(g.contains(g[t]));
+        assert(g.to_multiset().count(g[t]) > 0);
+        assert(f.to_multiset().count(g[t]) > 0);
+        assert(f.contains(g[t]));
+        let u = choose|u: int| 0 <= u < f.len() && f[u] == g[t];
+        assert(f[u] == (fk[u], fv[u]));
+    }
+    assert forall|k: int, j: int| 0 <= k < s.len() && 0 <= j < s[k].1.chunks@.len() && (k < nb || (k == nb && j < 0))
+            implies #[trigger] chunk_listed(s, p0, sk, sv, k, j) by {
+        assert(chunk_listed(s, p0, fk, fv, k, j));
+        let u = choose|u: int| 0 <= u < fk.len() && #[trigger] names_chunk(s, p0, fk[u], fv[u], k, j);
+        assert(f[u] == (fk[u], fv[u]));
+        assert(f.contains(f[u]));
+        assert(f.to_multiset().count(f[u]) > 0);
+        assert(g.to_multiset().count(f[u]) > 0);
+        assert(g.contains(f[u]));
+        let t = choose|t: int| 0 <= t < g.len() && g[t] == f[u];
+        assert(g[t] == (sk[t], sv[t]));
+    }
+}
+
+proof fn lemma_chunk_pairs_push(s: Seq<(MerkleHash, Arc<MDBCASInfo>)>, p0: int, fk: Seq<u64>, fv: Seq<(u32, u32)>, nb: int, nj: int, key: u64, val: (u32, u32))
+    requires chunk_pairs(s, p0, fk, fv, nb, nj), 0 <= nb < s.len(), 0 <= nj < s[nb].1.chunks@.len(), names_chunk(s, p0, key, val, nb, nj),
+    ensures chunk_pairs(s, p0, fk.push(key), fv.push(val), nb, nj + 1),
+{
+    let k2 = fk.push(key); let v2 = fv.push(val);
+    assert forall|t: int| 0 <= t < k2.len() implies pair_named(s, p0, #[trigger] k2[t], v2[t], nb, nj + 1) by {
+        if t < fk.len() {
+            assert(pair_named(s, p0, fk[t], fv[t], nb, nj));
+            let (k, j) = choose|k: int, j: int| #[trigger] names_chunk(s, p0, fk[t], fv[t], k, j) && (k < nb || (k == nb && j < nj));
+            assert(names_chunk(s, p0, k2[t], v2[t], k, j));
+        } else {
+            assert(names_chunk(s, p0, k2[t], v2[t], nb, nj));
+        }
+    }
+    assert forall|k: int, j: int| 0 <= k < s.len() && 0 <= j < s[k].1.chunks@.len() && (k < nb || (k == nb && j < nj + 1))
+            implies #[trigger] chunk_listed(s, p0, k2, v2, k, j) by {
+        if k == nb && j == nj {
+            assert(names_chunk(s, p0, k2[fk.len() as int], v2[fk.len() as int], k, j));
+        } else {
+            assert(chunk_listed(s, p0, fk, fv, k, j));
+            let t = choose|t: int| 0 <= t < fk.len() && #[trigger] names_chunk(s, p0, fk[t], fv[t], k, j);
+            assert(names_chunk(s, p0, k2[t], v2[t], k, j));
+        }
+    }
+}
+proof fn lemma_chunk_pairs_next(s: Seq<(MerkleHash, Arc<MDBCASInfo>)>, p0: int, fk: Seq<u64>, fv: Seq<(u32, u32)>, nb: int)
+    requires 0 <= nb < s.len(), chunk_pairs(s, p0, fk, fv, nb, s[nb].1.chunks@.len() as int),
+    ensures chunk_pairs(s, p0, fk, fv, nb + 1, 0),
+{
+    let nj = s[nb].1.chunks@.len() as int;
+    assert forall|t: int| 0 <= t < fk.len() implies pair_named(s, p0, #[trigger] fk[t], fv[t], nb + 1, 0) by {
+        assert(pair_named(s, p0, fk[t], fv[t], nb, nj));
+        let (k, j) = choose|k: int, j: int| #[trigger] names_chunk(s, p0, fk[t], fv[t], k, j) && (k < nb || (k == nb && j < nj));
+        assert(names_chunk(s, p0, fk[t], fv[t], k, j) && (k < nb + 1));
+    }
+    assert forall|k: int, j: int| 0 <= k < s.len() && 0 <= j < s[k].1.chunks@.len() && (k < nb + 1 || (k == nb + 1 && j < 0))
+            implies #[trigger] chunk_listed(s, p0, fk, fv, k, j) by {
+        assert(k < nb || (k == nb && j < nj));
+    }
+}
+// state of convert_and_save_cas_info after i blocks of the order s
+spec fn conv_cas_inv(s: Seq<(MerkleHash, Arc<MDBCASInfo>)>, w0: VxW, w: VxW, keys: Seq<u64>, vals: Seq<u32>, index: int, i: int) -> bool {
+    let sec = cas_hdrs(s); let p0 = w0.len();
+    &&& 0 <= i <= s.len()
+    &&& keeps(w0, w) && w.len() == p0 + 48 * index && p0 + 48 * index == cas_pos(p0, sec, i)
+    &&& keys.len() == i && vals.len() == i
+    &&& forall|k: int| 0 <= k < i ==> #[trigger] keys[k] == spec_truncate(s[k].0)
+    &&& forall|k: int| 0 <= k < i ==> p0 + 48 * (#[trigger] vals[k]) == cas_pos(p0, sec, k)
+    &&& forall|k: int| 0 <= k < i ==> cas_block_ok(w.out@, #[trigger] cas_pos(p0, sec, k), *s[k].1)
+}
+// what convert_and_save_cas_info produced (cas section + cas lookup), for the entry order s
+spec fn conv_cas_post(s: Seq<(MerkleHash, Arc<MDBCASInfo>)>, w0: VxW, w1: VxW, keys: Seq<u64>, vals: Seq<u32>, n: int) -> bool {
+    let sec = cas_hdrs(s); let p0 = w0.len(); let cnt = s.len() as int;
+    &&& keeps(w0, w1) && w1.len() == p0 + n && n == cas_pos(p0, sec, cnt) - p0 + 48
+    &&& keys.len() == cnt && vals.len() == cnt
+    &&& forall|k: int| 0 <= k < cnt ==> #[trigger] keys[k] == spec_truncate(s[k].0)
+    &&& forall|k: int| 0 <= k < cnt ==> p0 + 48 * (#[trigger] vals[k]) == cas_pos(p0, sec, k)
+    &&& forall|i: int, j: int| 0 <= i <= j < cnt ==> #[trigger] keys[i] <= #[trigger] keys[j]
+    &&& cas_section(w1.out@, p0, sec)
+    &&& forall|k: int| 0 <= k < cnt ==> cas_block_ok(w1.out@, #[trigger] cas_pos(p0, sec, k), *s[k].1)
+}
+// the chunk lookup table: ordered by key, one (truncated chunk hash, (block ordinal, chunk index)) per chunk, nothing else
+spec fn chunk_table_post(s: Seq<(MerkleHash, Arc<MDBCASInfo>)>, p0: int, hk: Seq<u64>, hv: Seq<(u32, u32)>) -> bool {
+    &&& chunk_pairs(s, p0, hk, hv, s.len() as int, 0)
+    &&& forall|a: int, b: int| 0 <= a <= b < hk.len() ==> #[trigger] hk[a] <= #[trigger] hk[b]
+}
+proof fn lemma_conv_cas_done(s: Seq<(MerkleHash, Arc<MDBCASInfo>)>, m: Map<MerkleHash, Arc<MDBCASInfo>>, w0: VxW, wb: VxW, w1: VxW,
+        keys: Seq<u64>, vals: Seq<u32>, index: int)
+    requires
+        is_entries(s, m), cas_ok(m), conv_cas_inv(s, w0, wb, keys, vals, index, s.len() as int),
+        keeps(wb, w1), w1.len() == wb.len() + 48, cas_hdr_at(w1.out@, wb.len()).cas_hash == bookend_hash(),
+    ensures conv_cas_post(s, w0, w1, keys, vals, 48 * index + 48),
+{
+    let sec = cas_hdrs(s); let p0 = w0.len(); let cnt = s.len() as int;
+    assert forall|k: int| 0 <= k < cnt implies cas_block_ok(w1.out@, #[trigger] cas_pos(p0, sec, k), *s[k].1)
+        && cas_hdr_at(w1.out@, cas_pos(p0, sec, k)) == sec[k] && sec[k].cas_hash != bookend_hash() by {
+        lemma_cas_pos_step(p0, sec, k);
+        lemma_cas_pos_mono(p0, sec, k + 1, cnt);
+        lemma_cas_pos_mono(p0, sec, 0, k);
+        assert(m.contains_key(s[k].0));
+        lemma_cas_block_keeps(wb, w1, cas_pos(p0, sec, k), *s[k].1);
+    }
+    assert forall|i: int, j: int| 0 <= i <= j < cnt implies #[trigger] keys[i] <= #[trigger] keys[j] by {
+        if i < j { lemma_truncate_monotone(s[i].0, s[j].0); }
+    }
+}
+// the sorted table collected from the sorted pair list
+proof fn lemma_chunk_table(s: Seq<(MerkleHash, Arc<MDBCASInfo>)>, p0: int, fk: Seq<u64>, fv: Seq<(u32, u32)>,
+        c0: Seq<(&u64, &(u32, u32))>, c: Seq<(&u64, &(u32, u32))>, sk: Seq<u64>, sv: Seq<(u32, u32)>)
+    requires
+        chunk_pairs(s, p0, fk, fv, s.len() as int, 0),
+        deref_pairs(c0) == pairs_of(fk, fv), deref_pairs(c).to_multiset() == deref_pairs(c0).to_multiset(),
+        forall|a: int, b: int| 0 <= a <= b < c.len() ==> *(#[trigger] c[a]).0 <= *(#[trigger] c[b]).0,
+        keys_collected(sk, c), vals_collected(sv, c),
+    ensures chunk_table_post(s, p0, sk, sv),
+{
+    assert(pairs_of(sk, sv) =~= deref_pairs(c));
+    lemma_sorted_pairs(s, p0, fk, fv, sk, sv);
+    assert forall|a: int, b: int| 0 <= a <= b < sk.len() implies #[trigger] sk[a] <= #[trigger] sk[b] by {
+        assert(*c[a].0 <= *c[b].0);
+    }
+}
+
+impl MDBShardInfo {
+//@ extract mdb_shard/src/shard_format.rs in `impl MDBShardInfo` fn convert_and_save_cas_info
+//@ ret r
+//@ rules R4a R4i R4n
+//@ subst `chunk_lookup_keys.iter().zip(chunk_lookup_vals.iter()).collect::<Vec<_>>()` => `vx_zip_collect(&chunk_lookup_keys, &chunk_lookup_vals)` :: R7 outline (iterator chain); assumed: element t is (&keys[t], &vals[t])
+//@ optsubst `chunk_lookup_combined.sort_unstable_by_key(|&(k, _)| k)` => `vx_sort_by_key(&mut chunk_lookup_combined)` :: R7 outline of the std sort with a key closure; contract = permutation of the input + ordered by key
+//@ subst `chunk_lookup_combined.iter().map(|&(k, _)| *k).collect()` => `vx_collect_keys(&chunk_lookup_combined)` :: R7 outline (iterator chain); assumed: element t is *combined[t].0
+//@ subst `chunk_lookup_combined.iter().map(|&(_, v)| *v).collect()` => `vx_collect_vals(&chunk_lookup_combined)` :: R7 outline (iterator chain); assumed: element t is *combined[t].1
+//@ contract
+        requires
+            cas_ok(cas_content@),
+            // the u32 ordinal and the byte counter do not overflow: fewer than 2^32 48-byte records in the section
+            forall|s: Seq<(MerkleHash, Arc<MDBCASInfo>)>| #[trigger] is_entries(s, cas_content@) ==> cas_pos(0, cas_hdrs(s), s.len() as int) + 48 <= 48 * 0xFFFF_FFFF,
+        ensures
+            /*@C09,C05*/ r matches Ok(((ck, cv), (hk, hv), n)) ==> exists|s: Seq<(MerkleHash, Arc<MDBCASInfo>)>| #[trigger] is_entries(s, cas_content@)
+                && conv_cas_post(s, *old(writer), *final(writer), ck@, cv@, n as int)
+                && chunk_table_post(s, old(writer).len(), hk@, hv@),
+//@ after `let mut bytes_written = 0;`
+        let ghost w0 = *writer; let ghost p0 = writer.len(); let ghost m = cas_content@;
+        let ghost mut wb = *writer; let ghost mut ws = *writer;
+        proof {
+            axiom_merklehash_total_order();
+            assert forall|r: Seq<(&MerkleHash, &Arc<MDBCASInfo>)>| #[trigger] iter_entries(r, m) implies is_entries(own(r), m) by { lemma_entries_from_iter(r, m); }
+        }
+//@ loop 1
+            invariant
+                w0 == *old(writer), p0 == w0.len(), m == cas_content@, cas_ok(m),
+                forall|s: Seq<(MerkleHash, Arc<MDBCASInfo>)>| #[trigger] is_entries(s, m) ==> cas_pos(0, cas_hdrs(s), s.len() as int) + 48 <= 48 * 0xFFFF_FFFF,
+                forall|r: Seq<(&MerkleHash, &Arc<MDBCASInfo>)>| #[trigger] iter_entries(r, m) ==> is_entries(own(r), m),
+                iter_entries(vx_it1.seq(), m),
+                bytes_written == 48 * index,
+                conv_cas_inv(own(vx_it1.seq()), w0, *writer, cas_lookup_keys@, cas_lookup_vals@, index as int, vx_it1.index@ as int),
+                chunk_pairs(own(vx_it1.seq()), p0, chunk_lookup_keys@, chunk_lookup_vals@, vx_it1.index@ as int, 0),
+            ensures
+                bytes_written == 48 * index,
+                exists|s: Seq<(MerkleHash, Arc<MDBCASInfo>)>| #[trigger] is_entries(s, m)
+                    && conv_cas_inv(s, w0, *writer, cas_lookup_keys@, cas_lookup_vals@, index as int, s.len() as int)
+                    && chunk_pairs(s, p0, chunk_lookup_keys@, chunk_lookup_vals@, s.len() as int, 0),
+//@ before `bytes_written += content.metadata.serialize(writer)?;`
+            proof {
+                ws = *writer;
+                let s = own(vx_it1.seq()); let sec = cas_hdrs(s); let bi = vx_it1.index@ as int;
+                assert(m.contains_key(*vx_it1.seq()[bi].0));
+                lemma_cas_pos_step(p0, sec, bi);
+                lemma_cas_pos_mono(p0, sec, bi + 1, s.len() as int);
+                lemma_cas_pos_shift(p0, sec, s.len() as int);
+            }
+//@ loop 2
+                invariant
+                    w0 == *old(writer), p0 == w0.len(), m == cas_content@, cas_ok(m),
+                    iter_entries(vx_it1.seq(), m), is_entries(own(vx_it1.seq()), m),
+                    0 <= vx_it1.index@ < vx_it1.seq().len(), *content == own(vx_it1.seq())[vx_it1.index@ as int].1, cas_info_wf(**content),
+                    keeps(w0, *writer), keeps(ws, *writer), ws.len() == p0 + 48 * index,
+                    writer.len() == p0 + bytes_written, bytes_written == 48 * index + 48 + 48 * i,
+                    p0 + 48 * index == cas_pos(p0, cas_hdrs(own(vx_it1.seq())), vx_it1.index@ as int),
+                    p0 + 48 * index + 48 + 48 * content.chunks@.len() + 48 <= p0 + 48 * 0xFFFF_FFFF,
+                    decodes(writer.out@, p0 + 48 * index, Tok::CasHdr(content.metadata)),
+                    forall|j: int| 0 <= j < i ==> decodes(writer.out@, p0 + 48 * index + 48 + 48 * j, Tok::CasEntry(#[trigger] content.chunks@[j])),
+                    conv_cas_inv(own(vx_it1.seq()), w0, ws, cas_lookup_keys@.drop_last(), cas_lookup_vals@.drop_last(), index as int, vx_it1.index@ as int),
+                    cas_lookup_keys@.len() == vx_it1.index@ + 1, cas_lookup_vals@.len() == vx_it1.index@ + 1,
+                    cas_lookup_keys@.last() == spec_truncate(own(vx_it1.seq())[vx_it1.index@ as int].0), cas_lookup_vals@.last() == index,
+                    chunk_pairs(own(vx_it1.seq()), p0, chunk_lookup_keys@, chunk_lookup_vals@, vx_it1.index@ as int, i as int),
+//@ before `chunk_lookup_keys.push(truncate_hash(&chunk.chunk_hash));`
+                let ghost fk0 = chunk_lookup_keys@; let ghost fv0 = chunk_lookup_vals@;
+//@ after `chunk_lookup_vals.push((index, i as u32));`
+                proof {
+                    let s = own(vx_it1.seq()); let bi = vx_it1.index@ as int;
+                    lemma_chunk_pairs_push(s, p0, fk0, fv0, bi, i as int, chunk_lookup_keys@.last(), chunk_lookup_vals@.last());
+                    assert(chunk_lookup_keys@ =~= fk0.push(chunk_lookup_keys@.last()));
+                    assert(chunk_lookup_vals@ =~= fv0.push(chunk_lookup_vals@.last()));
+                }
+//@ before `index += 1 + content.chunks.len() as u32;`
+            proof {
+                let s = own(vx_it1.seq()); let sec = cas_hdrs(s); let bi = vx_it1.index@ as int;
+                lemma_cas_pos_step(p0, sec, bi);
+                assert forall|k: int| 0 <= k < bi implies cas_block_ok(writer.out@, #[trigger] cas_pos(p0, sec, k), *s[k].1) by {
+                    lemma_cas_pos_step(p0, sec, k);
+                    lemma_cas_pos_mono(p0, sec, k + 1, bi);
+                    lemma_cas_pos_mono(p0, sec, 0, k);
+                    lemma_cas_block_keeps(ws, *writer, cas_pos(p0, sec, k), *s[k].1);
+                }
+                assert(cas_block_ok(writer.out@, cas_pos(p0, sec, bi), *s[bi].1));
+                lemma_chunk_pairs_next(s, p0, chunk_lookup_keys@, chunk_lookup_vals@, bi);
+            }
+//@ before `bytes_written += CASChunkSequenceHeader::bookend()`
+        let ghost ents = choose|s: Seq<(MerkleHash, Arc<MDBCASInfo>)>| #[trigger] is_entries(s, m)
+                    && conv_cas_inv(s, w0, *writer, cas_lookup_keys@, cas_lookup_vals@, index as int, s.len() as int)
+                    && chunk_pairs(s, p0, chunk_lookup_keys@, chunk_lookup_vals@, s.len() as int, 0);
+        proof {
+            wb = *writer;
+            lemma_cas_pos_shift(p0, cas_hdrs(ents), ents.len() as int);
+        }
+//@ before `let mut chunk_lookup_combined`
+        proof { lemma_conv_cas_done(ents, m, w0, wb, *writer, cas_lookup_keys@, cas_lookup_vals@, index as int); }
+//@ after `let mut chunk_lookup_combined = vx_zip_collect(&chunk_lookup_keys, &chunk_lookup_vals);`
+        let ghost c0 = chunk_lookup_combined@;
+//@ before `Ok((`
+        proof {
+            let c = chunk_lookup_combined@;
+            assert forall|sk: Seq<u64>, sv: Seq<(u32, u32)>| #[trigger] keys_collected(sk, c) && #[trigger] vals_collected(sv, c)
+                implies chunk_table_post(ents, p0, sk, sv) by {
+                lemma_chunk_table(ents, p0, chunk_lookup_keys@, chunk_lookup_vals@, c0, c, sk, sv);
+            }
+        }
+//@ end
+}
+
+// ---- shard header and footer ---------------------------------------------------------------------------------------------------
+global size_of MDBShardFileHeader == 48;
+global size_of MDBShardFileFooter == 200;
+// shard_format.rs: `size_of::<MDBShardFileFooter>() as i64` (size_of in a const initialiser is not accepted by Verus)
+const MDB_SHARD_FOOTER_SIZE: i64 = 200;
+//@ extract mdb_shard/src/shard_format.rs const MDB_SHARD_HEADER_VERSION
+//@ end
+//@ extract mdb_shard/src/shard_format.rs const MDB_SHARD_FOOTER_VERSION
+//@ end
+//@ extract mdb_shard/src/shard_format.rs const MDB_SHARD_HEADER_TAG
+//@ end
+pub uninterp spec fn zero_hash() -> MerkleHash;
+impl Default for MerkleHash {
+    #[verifier::external_body]
+    fn default() -> (r: MerkleHash) ensures r == zero_hash() { unimplemented!() }
+}
+// the header / footer `f` is stored at byte p (field order and widths of `serialize`)
+spec fn header_at(data: Seq<u8>, p: int, h: MDBShardFileHeader) -> bool {
+    &&& decodes(data, p, Tok::Raw(MDB_SHARD_HEADER_TAG@))
+    &&& decodes(data, p + 32, Tok::U64(h.version))
+    &&& decodes(data, p + 40, Tok::U64(h.footer_size))
+}
+spec fn footer_at(data: Seq<u8>, p: int, f: MDBShardFileFooter) -> bool {
+    &&& decodes(data, p, Tok::U64(f.version))
+    &&& decodes(data, p + 8, Tok::U64(f.file_info_offset))
+    &&& decodes(data, p + 16, Tok::U64(f.cas_info_offset))
+    &&& decodes(data, p + 24, Tok::U64(f.file_lookup_offset))
+    &&& decodes(data, p + 32, Tok::U64(f.file_lookup_num_entry))
+    &&& decodes(data, p + 40, Tok::U64(f.cas_lookup_offset))
+    &&& decodes(data, p + 48, Tok::U64(f.cas_lookup_num_entry))
+    &&& decodes(data, p + 56, Tok::U64(f.chunk_lookup_offset))
+    &&& decodes(data, p + 64, Tok::U64(f.chunk_lookup_num_entry))
+    &&& decodes(data, p + 72, Tok::Hash(f.chunk_hash_hmac_key))
+    &&& decodes(data, p + 104, Tok::U64(f.shard_creation_timestamp))
+    &&& decodes(data, p + 112, Tok::U64(f.shard_key_expiry))
+    &&& forall|t: int| 0 <= t < 6 ==> decodes(data, p + 120 + 8 * t, Tok::U64(#[trigger] f._buffer@[t]))
+    &&& decodes(data, p + 168, Tok::U64(f.stored_bytes_on_disk))
+    &&& decodes(data, p + 176, Tok::U64(f.materialized_bytes))
+    &&& decodes(data, p + 184, Tok::U64(f.stored_bytes))
+    &&& decodes(data, p + 192, Tok::U64(f.footer_offset))
+}
+proof fn lemma_header_keeps(w0: VxW, w1: VxW, p: int, h: MDBShardFileHeader)
+    requires keeps(w0, w1), header_at(w0.out@, p, h), 0 <= p, p + 48 <= w0.len(),
+    ensures header_at(w1.out@, p, h),
+{}
+
+impl MDBShardFileHeader {
+//@ extract mdb_shard/src/shard_format.rs in `impl MDBShardFileHeader` fn serialize
+//@ ret r
+//@ contract
+        ensures
+            /*@C09*/ r matches Ok(n) ==> n == 48 && final(writer).len() == old(writer).len() + 48 && keeps(*old(writer), *final(writer))
+                && decodes(final(writer).out@, old(writer).len() as int, Tok::Raw(MDB_SHARD_HEADER_TAG@))
+                && decodes(final(writer).out@, old(writer).len() + 32, Tok::U64(self.version))
+                && decodes(final(writer).out@, old(writer).len() + 40, Tok::U64(self.footer_size)),
+//@ end
+}
+impl MDBShardFileFooter {
+//@ extract mdb_shard/src/shard_format.rs in `impl MDBShardFileFooter` fn serialize
+//@ ret r
+//@ contract
+        ensures
+            /*@C09*/ r matches Ok(n) ==> n == 200 && final(writer).len() == old(writer).len() + 200 && keeps(*old(writer), *final(writer))
+                && footer_at(final(writer).out@, old(writer).len() as int, *self),
+//@ end
+}
+
+// ---- serialize_from -------------------------------------------------------------------------------------------------------------
+pub assume_specification<T>[std::mem::drop::<T>](x: T);
+//@ extract mdb_shard/src/shard_in_memory.rs struct MDBInMemoryShard
+//@ end
+// the in-memory accounting of the three byte totals (iterator folds over the two maps; their definitions are not unfolded here)
+uninterp spec fn spec_stored_bytes_on_disk(m: MDBInMemoryShard) -> u64;
+uninterp spec fn spec_materialized_bytes(m: MDBInMemoryShard) -> u64;
+uninterp spec fn spec_stored_bytes(m: MDBInMemoryShard) -> u64;
+impl MDBInMemoryShard {
+    #[verifier::external_body]
+    fn stored_bytes_on_disk(&self) -> (r: u64) ensures r == spec_stored_bytes_on_disk(*self) { unimplemented!() }
+    #[verifier::external_body]
+    fn materialized_bytes(&self) -> (r: u64) ensures r == spec_materialized_bytes(*self) { unimplemented!() }
+    #[verifier::external_body]
+    fn stored_bytes(&self) -> (r: u64) ensures r == spec_stored_bytes(*self) { unimplemented!() }
+}
+spec fn header_default() -> MDBShardFileHeader {
+    MDBShardFileHeader { tag: MDB_SHARD_HEADER_TAG, version: MDB_SHARD_HEADER_VERSION, footer_size: MDB_SHARD_FOOTER_SIZE as u64 }
+}
+spec fn is_footer_default(f: MDBShardFileFooter) -> bool {
+    &&& f.version == MDB_SHARD_FOOTER_VERSION && f.file_info_offset == 0 && f.cas_info_offset == 0 && f.file_lookup_offset == 0
+    &&& f.file_lookup_num_entry == 0 && f.cas_lookup_offset == 0 && f.cas_lookup_num_entry == 0 && f.chunk_lookup_offset == 0
+    &&& f.chunk_lookup_num_entry == 0 && f.chunk_hash_hmac_key == zero_hash() && f.shard_creation_timestamp == 0
+    &&& f.shard_key_expiry == u64::MAX && f.stored_bytes_on_disk == 0 && f.materialized_bytes == 0 && f.stored_bytes == 0 && f.footer_offset == 0
+    &&& forall|t: int| 0 <= t < 6 ==> #[trigger] f._buffer@[t] == 0
+}
+// `MDBShardInfo::default()` (derived; the field defaults are `impl Default for MDBShardFileHeader / MDBShardFileFooter`,
+// shard_format.rs:65-74 and 135-158, mirrored by header_default / is_footer_default) -- a trait impl cannot carry a contract over
+// the private extracted structs, so the call is redirected to this stub (R11)
+#[verifier::external_body]
+fn vx_shard_info_default() -> (r: MDBShardInfo) ensures r.header == header_default(), is_footer_default(r.metadata) { unimplemented!() }
+
+// a lookup table of n (u64 key, u32 value) entries of 12 bytes at byte `off`, as U-ISEARCH / U-SHLOOKUP read it
+spec fn table12_at(data: Seq<u8>, off: int, keys: Seq<u64>, vals: Seq<u32>) -> bool {
+    keys.len() == vals.len() && forall|t: int| 0 <= t < keys.len() ==>
+        decodes(data, off + 12 * t, Tok::U64(#[trigger] keys[t])) && decodes(data, off + 12 * t + 8, Tok::U32(vals[t]))
+}
+// the chunk lookup table: 16-byte entries (u64 key, u32 block ordinal, u32 chunk index)
+spec fn table16_at(data: Seq<u8>, off: int, keys: Seq<u64>, vals: Seq<(u32, u32)>) -> bool {
+    keys.len() == vals.len() && forall|t: int| 0 <= t < keys.len() ==>
+        decodes(data, off + 16 * t, Tok::U64(#[trigger] keys[t])) && decodes(data, off + 16 * t + 8, Tok::U32(vals[t].0))
+        && decodes(data, off + 16 * t + 12, Tok::U32(vals[t].1))
+}
+proof fn lemma_table12_keeps(w0: VxW, w1: VxW, off: int, keys: Seq<u64>, vals: Seq<u32>)
+    requires keeps(w0, w1), table12_at(w0.out@, off, keys, vals), 0 <= off, off + 12 * keys.len() <= w0.len(),
+    ensures table12_at(w1.out@, off, keys, vals),
+{}
+proof fn lemma_table16_keeps(w0: VxW, w1: VxW, off: int, keys: Seq<u64>, vals: Seq<(u32, u32)>)
+    requires keeps(w0, w1), table16_at(w0.out@, off, keys, vals), 0 <= off, off + 16 * keys.len() <= w0.len(),
+    ensures table16_at(w1.out@, off, keys, vals),
+{}
+// every record is at least its header: the number of records is bounded by the number of 48-byte slots
+proof fn lemma_file_count_le(off: int, sec: Seq<FileDataSequenceHeader>, k: int)
+    requires 0 <= k <= sec.len(),
+    ensures file_pos(off, sec, k) >= off + 48 * k,
+    decreases k,
+{
+    if k > 0 { lemma_file_count_le(off, sec, k - 1); }
+}
+proof fn lemma_cas_count_le(off: int, s: Seq<(MerkleHash, Arc<MDBCASInfo>)>, k: int)
+    requires 0 <= k <= s.len(), forall|q: int| 0 <= q < s.len() ==> cas_info_wf(*(#[trigger] s[q]).1),
+    ensures cas_pos(off, cas_hdrs(s), k) == off + 48 * k + 48 * chunk_total(s, k), chunk_total(s, k) >= 0,
+    decreases k,
+{
+    if k > 0 { lemma_cas_count_le(off, s, k - 1); }
+}
+
+// what serialize_from wrote, for the entry orders sf (files) and sc (xorbs); hk/hv = the chunk lookup table
+spec fn shard_post(sf: Seq<(MerkleHash, MDBFileInfo)>, sc: Seq<(MerkleHash, Arc<MDBCASInfo>)>, mdb: MDBInMemoryShard, sh: MDBShardInfo, data: Seq<u8>,
+        fk: Seq<u64>, fv: Seq<u32>, ck: Seq<u64>, cv: Seq<u32>, hk: Seq<u64>, hv: Seq<(u32, u32)>) -> bool {
+    let md = sh.metadata; let fsec = file_hdrs(sf); let csec = cas_hdrs(sc);
+    let nf = sf.len() as int; let nc = sc.len() as int; let nh = hk.len() as int;
+    // layout: header | file section | cas section | file lookup | cas lookup | chunk lookup | footer -- each footer offset is
+    // the byte position where that part starts, each *_num_entry the table length
+    &&& sh.header == header_default() && header_at(data, 0, sh.header)
+    &&& md.file_info_offset == 48
+    &&& md.cas_info_offset == file_pos(48, fsec, nf) + 48
+    &&& md.file_lookup_offset == cas_pos(md.cas_info_offset as int, csec, nc) + 48
+    &&& md.file_lookup_num_entry == nf
+    &&& md.cas_lookup_offset == md.file_lookup_offset + 12 * nf
+    &&& md.cas_lookup_num_entry == nc
+    &&& md.chunk_lookup_offset == md.cas_lookup_offset + 12 * nc
+    &&& md.chunk_lookup_num_entry == nh && nh == chunk_total(sc, nc)
+    &&& md.footer_offset == md.chunk_lookup_offset + 16 * nh
+    &&& data.len() == md.footer_offset + 200
+    &&& footer_at(data, md.footer_offset as int, md)
+    // byte totals = the in-memory accounting
+    &&& md.stored_bytes_on_disk == spec_stored_bytes_on_disk(mdb)
+    &&& md.materialized_bytes == spec_materialized_bytes(mdb)
+    &&& md.stored_bytes == spec_stored_bytes(mdb)
+    // the untouched footer fields
+    &&& md.version == MDB_SHARD_FOOTER_VERSION && md.chunk_hash_hmac_key == zero_hash() && md.shard_creation_timestamp == 0 && md.shard_key_expiry == u64::MAX
+    // sections (U-SHSCAN's model): exactly the in-memory records in key order, then the bookend
+    &&& file_section(data, md.file_info_offset as int, fsec)
+    &&& forall|k: int| 0 <= k < nf ==> file_block_ok(data, #[trigger] file_pos(md.file_info_offset as int, fsec, k), sf[k].1)
+    &&& cas_section(data, md.cas_info_offset as int, csec)
+    &&& forall|k: int| 0 <= k < nc ==> cas_block_ok(data, #[trigger] cas_pos(md.cas_info_offset as int, csec, k), *sc[k].1)
+    // lookup tables: (truncated hash, ordinal of the record header), non-decreasing keys
+    &&& table12_at(data, md.file_lookup_offset as int, fk, fv) && fk.len() == nf
+    &&& forall|k: int| 0 <= k < nf ==> #[trigger] fk[k] == spec_truncate(sf[k].0)
+    &&& forall|k: int| 0 <= k < nf ==> md.file_info_offset + 48 * (#[trigger] fv[k]) == file_pos(md.file_info_offset as int, fsec, k)
+    &&& forall|i: int, j: int| 0 <= i <= j < nf ==> #[trigger] fk[i] <= #[trigger] fk[j]
+    &&& table12_at(data, md.cas_lookup_offset as int, ck, cv) && ck.len() == nc
+    &&& forall|k: int| 0 <= k < nc ==> #[trigger] ck[k] == spec_truncate(sc[k].0)
+    &&& forall|k: int| 0 <= k < nc ==> md.cas_info_offset + 48 * (#[trigger] cv[k]) == cas_pos(md.cas_info_offset as int, csec, k)
+    &&& forall|i: int, j: int| 0 <= i <= j < nc ==> #[trigger] ck[i] <= #[trigger] ck[j]
+    &&& table16_at(data, md.chunk_lookup_offset as int, hk, hv)
+    &&& chunk_table_post(sc, md.cas_info_offset as int, hk, hv)
+}
+// proof-internal: what is known after the header and the two sections have been written (wH, wF, wA = writer after each part)
+#[verifier::opaque]
+spec fn stage_a(sf: Seq<(MerkleHash, MDBFileInfo)>, sc: Seq<(MerkleHash, Arc<MDBCASInfo>)>, mdb: MDBInMemoryShard, sh: MDBShardInfo,
+        wH: VxW, wF: VxW, wA: VxW, fk: Seq<u64>, fv: Seq<u32>, ck: Seq<u64>, cv: Seq<u32>, hk: Seq<u64>, hv: Seq<(u32, u32)>) -> bool {
+    let md = sh.metadata;
+    &&& is_entries(sf, mdb.file_content@) && is_entries(sc, mdb.cas_content@) && files_ok(mdb.file_content@) && cas_ok(mdb.cas_content@)
+    &&& wH.len() == 48 && sh.header == header_default() && header_at(wH.out@, 0, sh.header)
+    &&& conv_file_post(sf, wH, wF, fk, fv, wF.len() - 48)
+    &&& conv_cas_post(sc, wF, wA, ck, cv, wA.len() - wF.len())
+    &&& chunk_table_post(sc, wF.len(), hk, hv)
+    &&& md.file_info_offset == 48 && md.cas_info_offset == wF.len()
+    &&& md.version == MDB_SHARD_FOOTER_VERSION && md.chunk_hash_hmac_key == zero_hash() && md.shard_creation_timestamp == 0 && md.shard_key_expiry == u64::MAX
+    &&& fk.len() <= 0xFFFF_FFFF && ck.len() + hk.len() <= 0xFFFF_FFFF && wF.len() <= 48 + 48 * 0xFFFF_FFFF && wA.len() <= 48 + 96 * 0xFFFF_FFFF
+}
+// ... after the file lookup table (wB) and the cas lookup table (wC)
+#[verifier::opaque]
+spec fn stage_b(sh: MDBShardInfo, wA: VxW, wB: VxW, fk: Seq<u64>, fv: Seq<u32>) -> bool {
+    &&& keeps(wA, wB) && wB.len() == wA.len() + 12 * fk.len() && table12_at(wB.out@, wA.len(), fk, fv)
+    &&& sh.metadata.file_lookup_offset == wA.len() && sh.metadata.file_lookup_num_entry == fk.len()
+}
+#[verifier::opaque]
+spec fn stage_c(sh: MDBShardInfo, wB: VxW, wC: VxW, ck: Seq<u64>, cv: Seq<u32>) -> bool {
+    &&& keeps(wB, wC) && wC.len() == wB.len() + 12 * ck.len() && table12_at(wC.out@, wB.len(), ck, cv)
+    &&& sh.metadata.cas_lookup_offset == wB.len() && sh.metadata.cas_lookup_num_entry == ck.len()
+}
+#[verifier::opaque]
+spec fn stage_d(sh: MDBShardInfo, wC: VxW, wD: VxW, hk: Seq<u64>, hv: Seq<(u32, u32)>) -> bool {
+    &&& keeps(wC, wD) && wD.len() == wC.len() + 16 * hk.len() && table16_at(wD.out@, wC.len(), hk, hv)
+    &&& sh.metadata.chunk_lookup_offset == wC.len() && sh.metadata.chunk_lookup_num_entry == hk.len()
+}
+// everything written: lift the parts to the final bytes
+proof fn lemma_shard_done(sf: Seq<(MerkleHash, MDBFileInfo)>, sc: Seq<(MerkleHash, Arc<MDBCASInfo>)>, mdb: MDBInMemoryShard, sh: MDBShardInfo,
+        wH: VxW, wF: VxW, wA: VxW, wB: VxW, wC: VxW, wD: VxW, w1: VxW,
+        fk: Seq<u64>, fv: Seq<u32>, ck: Seq<u64>, cv: Seq<u32>, hk: Seq<u64>, hv: Seq<(u32, u32)>)
+    requires
+        stage_a(sf, sc, mdb, sh, wH, wF, wA, fk, fv, ck, cv, hk, hv), stage_b(sh, wA, wB, fk, fv), stage_c(sh, wB, wC, ck, cv), stage_d(sh, wC, wD, hk, hv),
+        keeps(wD, w1), w1.len() == wD.len() + 200, footer_at(w1.out@, wD.len(), sh.metadata), sh.metadata.footer_offset == wD.len(),
+        sh.metadata.stored_bytes_on_disk == spec_stored_bytes_on_disk(mdb), sh.metadata.materialized_bytes == spec_materialized_bytes(mdb),
+        sh.metadata.stored_bytes == spec_stored_bytes(mdb),
+    ensures
+        shard_post(sf, sc, mdb, sh, w1.out@, fk, fv, ck, cv, hk, hv),
+        w1.len() == model_size(sf, sc),
+{
+    reveal(stage_a); reveal(stage_b); reveal(stage_c); reveal(stage_d);
+    let fsec = file_hdrs(sf); let csec = cas_hdrs(sc); let nf = sf.len() as int; let nc = sc.len() as int;
+    let fm = mdb.file_content@; let cm = mdb.cas_content@;
+    let d = w1.out@;
+    lemma_header_keeps(wH, w1, 0, sh.header);
+    // file section
+    lemma_file_pos_shift(48, fsec, nf);
+    assert forall|k: int| 0 <= k < nf implies file_block_ok(d, #[trigger] file_pos(48, fsec, k), sf[k].1)
+        && file_hdr_at(d, file_pos(48, fsec, k)) == fsec[k] && fsec[k].file_hash != bookend_hash() by {
+        lemma_file_pos_step(48, fsec, k); lemma_file_pos_mono(48, fsec, k + 1, nf); lemma_file_pos_mono(48, fsec, 0, k);
+        assert(fm.contains_key(sf[k].0));
+        lemma_file_block_keeps(wF, w1, file_pos(48, fsec, k), sf[k].1);
+    }
+    assert(decodes(wF.out@, file_pos(48, fsec, nf), Tok::FileHdr(file_hdr_at(wF.out@, file_pos(48, fsec, nf)))));
+    lemma_file_pos_mono(48, fsec, 0, nf);
+    // cas section
+    let c0 = wF.len();
+    lemma_cas_pos_shift(c0, csec, nc);
+    assert forall|q: int| 0 <= q < sc.len() implies cas_info_wf(*(#[trigger] sc[q]).1) by { assert(cm.contains_key(sc[q].0)); }
+    lemma_cas_count_le(c0, sc, nc);
+    lemma_cas_count_le(0, sc, nc);
+    assert forall|k: int| 0 <= k < nc implies cas_block_ok(d, #[trigger] cas_pos(c0, csec, k), *sc[k].1)
+        && cas_hdr_at(d, cas_pos(c0, csec, k)) == csec[k] && csec[k].cas_hash != bookend_hash() by {
+        lemma_cas_pos_step(c0, csec, k); lemma_cas_pos_mono(c0, csec, k + 1, nc); lemma_cas_pos_mono(c0, csec, 0, k);
+        assert(cm.contains_key(sc[k].0));
+        lemma_cas_block_keeps(wA, w1, cas_pos(c0, csec, k), *sc[k].1);
+    }
+    assert(decodes(wA.out@, cas_pos(c0, csec, nc), Tok::CasHdr(cas_hdr_at(wA.out@, cas_pos(c0, csec, nc)))));
+    lemma_cas_pos_mono(c0, csec, 0, nc);
+    // tables
+    lemma_table12_keeps(wB, w1, wA.len(), fk, fv);
+    lemma_table12_keeps(wC, w1, wB.len(), ck, cv);
+    lemma_table16_keeps(wD, w1, wC.len(), hk, hv);
+    lemma_file_pos_shift(0, fsec, nf);
+}
+
+// the bytes are a serialization of the in-memory shard: for the key orders of its two maps, everything in shard_post holds
+spec fn shard_written(mdb: MDBInMemoryShard, sh: MDBShardInfo, data: Seq<u8>) -> bool {
+    exists|sf: Seq<(MerkleHash, MDBFileInfo)>, sc: Seq<(MerkleHash, Arc<MDBCASInfo>)>,
+            fk: Seq<u64>, fv: Seq<u32>, ck: Seq<u64>, cv: Seq<u32>, hk: Seq<u64>, hv: Seq<(u32, u32)>|
+        is_entries(sf, mdb.file_content@) && is_entries(sc, mdb.cas_content@)
+        && #[trigger] shard_post(sf, sc, mdb, sh, data, fk, fv, ck, cv, hk, hv)
+}
+spec fn size_is_model(mdb: MDBInMemoryShard, n: int) -> bool {
+    exists|sf: Seq<(MerkleHash, MDBFileInfo)>, sc: Seq<(MerkleHash, Arc<MDBCASInfo>)>|
+        is_entries(sf, mdb.file_content@) && is_entries(sc, mdb.cas_content@) && n == #[trigger] model_size(sf, sc)
+}
+// size of the serialized shard in terms of the in-memory content (the quantity `shard_file_size()` is meant to track)
+spec fn model_size(sf: Seq<(MerkleHash, MDBFileInfo)>, sc: Seq<(MerkleHash, Arc<MDBCASInfo>)>) -> int {
+    48 + (file_pos(0, file_hdrs(sf), sf.len() as int) + 48) + (cas_pos(0, cas_hdrs(sc), sc.len() as int) + 48)
+       + 12 * sf.len() + 12 * sc.len() + 16 * chunk_total(sc, sc.len() as int) + 200
+}
+
+impl MDBShardInfo {
+//@ extract mdb_shard/src/shard_format.rs in `impl MDBShardInfo` fn serialize_from
+//@ ret r
+//@ rules R4z R4n
+//@ subst `MDBShardInfo::default()` => `vx_shard_info_default()` :: R11 stub of the derived Default (see vx_shard_info_default)
+//@ contract
+        requires
+            old(writer).len() == 0,     // the footer offsets are absolute: the shard starts at the writer's position 0
+            files_ok(mdb.file_content@), cas_ok(mdb.cas_content@),
+            forall|s: Seq<(MerkleHash, MDBFileInfo)>| #[trigger] is_entries(s, mdb.file_content@) ==> file_pos(0, file_hdrs(s), s.len() as int) + 48 <= 48 * 0xFFFF_FFFF,
+            forall|s: Seq<(MerkleHash, Arc<MDBCASInfo>)>| #[trigger] is_entries(s, mdb.cas_content@) ==> cas_pos(0, cas_hdrs(s), s.len() as int) + 48 <= 48 * 0xFFFF_FFFF,
+        ensures
+            /*@C09,C05*/ r matches Ok(sh) ==> shard_written(*mdb, sh, final(writer).out@),
+            // total bytes written = the size the in-memory content determines
+            /*@C09*/ r matches Ok(sh) ==> size_is_model(*mdb, final(writer).len()),
+//@ after `let mut bytes_pos: usize = 0;`
+        let ghost w0 = *writer; let ghost mut wH = *writer; let ghost mut wF = *writer; let ghost mut wA = *writer;
+        let ghost mut wB = *writer; let ghost mut wC = *writer; let ghost mut wD = *writer;
+        let ghost mut sf: Seq<(MerkleHash, MDBFileInfo)> = Seq::empty(); let ghost mut sc: Seq<(MerkleHash, Arc<MDBCASInfo>)> = Seq::empty();
+        let ghost mut fk: Seq<u64> = Seq::empty(); let ghost mut fv: Seq<u32> = Seq::empty();
+        let ghost mut ck: Seq<u64> = Seq::empty(); let ghost mut cv: Seq<u32> = Seq::empty();
+        let ghost mut hk: Seq<u64> = Seq::empty(); let ghost mut hv: Seq<(u32, u32)> = Seq::empty();
+//@ after `bytes_pos += shard.header.serialize(writer)?;`
+        proof { wH = *writer; }
+//@ after `Self::convert_and_save_file_info(writer, &mdb.file_content)?;`
+        proof {
+            wF = *writer; fk = file_lookup_keys@; fv = file_lookup_vals@;
+            sf = choose|s: Seq<(MerkleHash, MDBFileInfo)>| #[trigger] is_entries(s, mdb.file_content@)
+                && conv_file_post(s, wH, wF, fk, fv, bytes_written as int);
+            lemma_file_pos_shift(48, file_hdrs(sf), sf.len() as int);
+            lemma_file_count_le(48, file_hdrs(sf), sf.len() as int);
+        }
+//@ after `Self::convert_and_save_cas_info(writer, &mdb.cas_content)?;`
+        proof {
+            wA = *writer; ck = cas_lookup_keys@; cv = cas_lookup_vals@; hk = chunk_lookup_keys@; hv = chunk_lookup_vals@;
+            sc = choose|s: Seq<(MerkleHash, Arc<MDBCASInfo>)>| #[trigger] is_entries(s, mdb.cas_content@)
+                && conv_cas_post(s, wF, wA, ck, cv, bytes_written as int) && chunk_table_post(s, wF.len(), hk, hv);
+            lemma_cas_pos_shift(wF.len(), cas_hdrs(sc), sc.len() as int);
+            assert forall|q: int| 0 <= q < sc.len() implies cas_info_wf(*(#[trigger] sc[q]).1) by { assert(mdb.cas_content@.contains_key(sc[q].0)); }
+            lemma_cas_count_le(wF.len(), sc, sc.len() as int);
+        }
+//@ before `shard.metadata.file_lookup_num_entry = file_lookup_keys.len() as u64;`
+        proof { reveal(stage_a); assert(stage_a(sf, sc, *mdb, shard, wH, wF, wA, fk, fv, ck, cv, hk, hv)); }
+//@ loop 1
+            invariant_except_break
+                writer.len() == wA.len() + 12 * vx_z1,
+                forall|t: int| 0 <= t < vx_z1 ==> decodes(writer.out@, wA.len() + 12 * t, Tok::U64(#[trigger] fk[t])) && decodes(writer.out@, wA.len() + 12 * t + 8, Tok::U32(fv[t])),
+            invariant
+                stage_a(sf, sc, *mdb, shard, wH, wF, wA, fk, fv, ck, cv, hk, hv),
+                shard.metadata.file_lookup_offset == wA.len() && shard.metadata.file_lookup_num_entry == fk.len(),
+                fk.len() <= 0xFFFF_FFFF && ck.len() + hk.len() <= 0xFFFF_FFFF && wA.len() <= 48 + 96 * 0xFFFF_FFFF, fk.len() == fv.len(), ck.len() == cv.len(), hk.len() == hv.len(),
+                bytes_pos == wA.len(), file_lookup_keys@ == fk, file_lookup_vals@ == fv, cas_lookup_keys@ == ck, cas_lookup_vals@ == cv,
+                chunk_lookup_keys@ == hk, chunk_lookup_vals@ == hv,
+                keeps(wA, *writer),
+            ensures
+                writer.len() == wA.len() + 12 * fk.len(), table12_at(writer.out@, wA.len(), fk, fv),
+//@ before `drop(file_lookup_keys);`
+        proof { wB = *writer; reveal(stage_b); assert(stage_b(shard, wA, wB, fk, fv)); }
+//@ loop 2
+            invariant_except_break
+                writer.len() == wB.len() + 12 * vx_z2,
+                forall|t: int| 0 <= t < vx_z2 ==> decodes(writer.out@, wB.len() + 12 * t, Tok::U64(#[trigger] ck[t])) && decodes(writer.out@, wB.len() + 12 * t + 8, Tok::U32(cv[t])),
+            invariant
+                stage_a(sf, sc, *mdb, shard, wH, wF, wA, fk, fv, ck, cv, hk, hv), stage_b(shard, wA, wB, fk, fv),
+                shard.metadata.cas_lookup_offset == wB.len() && shard.metadata.cas_lookup_num_entry == ck.len(),
+                fk.len() <= 0xFFFF_FFFF && ck.len() + hk.len() <= 0xFFFF_FFFF && wA.len() <= 48 + 96 * 0xFFFF_FFFF, wB.len() == wA.len() + 12 * fk.len(), ck.len() == cv.len(), hk.len() == hv.len(),
+                bytes_pos == wB.len(), cas_lookup_keys@ == ck, cas_lookup_vals@ == cv, chunk_lookup_keys@ == hk, chunk_lookup_vals@ == hv,
+                keeps(wB, *writer),
+            ensures
+                writer.len() == wB.len() + 12 * ck.len(), table12_at(writer.out@, wB.len(), ck, cv),
+//@ before `shard.metadata.chunk_lookup_offset = bytes_pos as u64;`
+        proof { wC = *writer; reveal(stage_c); assert(stage_c(shard, wB, wC, ck, cv)); }
+//@ loop 3
+            invariant_except_break
+                writer.len() == wC.len() + 16 * vx_z3,
+                forall|t: int| 0 <= t < vx_z3 ==> decodes(writer.out@, wC.len() + 16 * t, Tok::U64(#[trigger] hk[t])) && decodes(writer.out@, wC.len() + 16 * t + 8, Tok::U32(hv[t].0))
+                    && decodes(writer.out@, wC.len() + 16 * t + 12, Tok::U32(hv[t].1)),
+            invariant
+                stage_a(sf, sc, *mdb, shard, wH, wF, wA, fk, fv, ck, cv, hk, hv), stage_b(shard, wA, wB, fk, fv), stage_c(shard, wB, wC, ck, cv),
+                shard.metadata.chunk_lookup_offset == wC.len() && shard.metadata.chunk_lookup_num_entry == hk.len(),
+                fk.len() <= 0xFFFF_FFFF && ck.len() + hk.len() <= 0xFFFF_FFFF && wA.len() <= 48 + 96 * 0xFFFF_FFFF, wB.len() == wA.len() + 12 * fk.len(), wC.len() == wB.len() + 12 * ck.len(), hk.len() == hv.len(),
+                bytes_pos == wC.len(), chunk_lookup_keys@ == hk, chunk_lookup_vals@ == hv,
+                keeps(wC, *writer),
+            ensures
+                writer.len() == wC.len() + 16 * hk.len(), table16_at(writer.out@, wC.len(), hk, hv),
+//@ before `shard.metadata.stored_bytes_on_disk = mdb.stored_bytes_on_disk();`
+        proof { wD = *writer; reveal(stage_d); assert(stage_d(shard, wC, wD, hk, hv)); }
+//@ before `Ok(shard)`
+        proof {
+            assert(stage_a(sf, sc, *mdb, shard, wH, wF, wA, fk, fv, ck, cv, hk, hv)) by { reveal(stage_a); }
+            assert(stage_b(shard, wA, wB, fk, fv)) by { reveal(stage_b); }
+            assert(stage_c(shard, wB, wC, ck, cv)) by { reveal(stage_c); }
+            assert(stage_d(shard, wC, wD, hk, hv)) by { reveal(stage_d); }
+            lemma_shard_done(sf, sc, *mdb, shard, wH, wF, wA, wB, wC, wD, *writer, fk, fv, ck, cv, hk, hv);
+            assert(is_entries(sf, mdb.file_content@) && is_entries(sc, mdb.cas_content@)) by { reveal(stage_a); }
+            assert(shard_written(*mdb, shard, writer.out@));
+            assert(size_is_model(*mdb, writer.len()));
+        }
+//@ end
+}
+
+// ---- connecting lemma: a lookup (U-SHLOOKUP's contract) on bytes written by serialize_from answers exactly as the in-memory shard ----
+// U-SHLOOKUP's view of the file lookup table of `sh` in `data` (its fl_key / fl_idx / fl_count, with the u32 reader's decoder = u32_at)
+spec fn lk_n(sh: MDBShardInfo) -> int { sh.metadata.file_lookup_num_entry as int }
+spec fn lk_key(sh: MDBShardInfo, data: Seq<u8>, i: int) -> u64 { isx::tkey(data, sh.metadata.file_lookup_offset as int, 12, i) }
+spec fn lk_idx(sh: MDBShardInfo, data: Seq<u8>, i: int) -> u32 { u32_at(data, isx::off(sh.metadata.file_lookup_offset as int, 12, i) + 8) }
+spec fn lk_count(sh: MDBShardInfo, data: Seq<u8>, h: MerkleHash) -> nat {
+    isx::matches(data, sh.metadata.file_lookup_offset as int, 12, lk_n(sh), spec_truncate(h)).len()
+}
+// the postcondition of `get_file_reconstruction_info(reader, &h)` proved in U-SHLOOKUP, clause by clause; `rec(idx)` / `valid(idx)`
+// stand for its `spec_file_info(sh, data, idx)` / `spec_file_info_valid(..)` (what read_file_info decodes for entry index idx),
+// `failed` for "an operation on the reader failed"; ret: Some(x) = Ok(x), None = Err
+spec fn lookup_post(sh: MDBShardInfo, data: Seq<u8>, h: MerkleHash, rec: spec_fn(u32) -> MDBFileInfo, valid: spec_fn(u32) -> bool,
+        failed: bool, ret: Option<Option<MDBFileInfo>>) -> bool {
+    &&& ret matches Some(Some(info)) ==> info.metadata.file_hash == h
+            && exists|i: int| 0 <= i < lk_n(sh) && #[trigger] lk_key(sh, data, i) == spec_truncate(h) && info == rec(lk_idx(sh, data, i))
+    &&& ret matches Some(None) ==> forall|i: int| 0 <= i < lk_n(sh) && #[trigger] lk_key(sh, data, i) == spec_truncate(h)
+            ==> rec(lk_idx(sh, data, i)).metadata.file_hash != h
+    &&& lk_count(sh, data, h) >= 8 ==> ret is None
+    &&& ret is None ==> failed || lk_count(sh, data, h) >= 8
+            || exists|i: int| 0 <= i < lk_n(sh) && #[trigger] lk_key(sh, data, i) == spec_truncate(h) && !valid(lk_idx(sh, data, i))
+}
+// what `read_file_info(reader, idx)` returns, from U-SHSCAN's contract of `MDBFileInfo::deserialize` at file_info_offset + 48*idx:
+// the block found there unless its header is the bookend
+spec fn reads_blocks(sh: MDBShardInfo, data: Seq<u8>, rec: spec_fn(u32) -> MDBFileInfo, valid: spec_fn(u32) -> bool) -> bool {
+    forall|idx: u32| {
+        let p = sh.metadata.file_info_offset + 48 * idx;
+        (#[trigger] valid(idx) <==> file_hdr_at(data, p).file_hash != bookend_hash()) && (valid(idx) ==> file_block_ok(data, p, rec(idx)))
+    }
+}
+// two records decoded from the same block are the same record
+spec fn rec_eq(a: MDBFileInfo, b: MDBFileInfo) -> bool {
+    a.metadata == b.metadata && a.segments@ == b.segments@ && a.verification@ == b.verification@ && a.metadata_ext == b.metadata_ext
+}
+proof fn lemma_block_unique(data: Seq<u8>, p: int, a: MDBFileInfo, b: MDBFileInfo)
+    requires file_block_ok(data, p, a), file_block_ok(data, p, b),
+    ensures rec_eq(a, b),
+{
+    assert(a.segments@ =~= b.segments@);
+    assert(a.verification@ =~= b.verification@);
+}
+proof fn lemma_lookup_exact(mdb: MDBInMemoryShard, sh: MDBShardInfo, data: Seq<u8>, h: MerkleHash,
+        rec: spec_fn(u32) -> MDBFileInfo, valid: spec_fn(u32) -> bool, failed: bool, ret: Option<Option<MDBFileInfo>>)
+    requires
+        files_ok(mdb.file_content@),
+        shard_written(mdb, sh, data),              // serialize_from's postcondition
+        reads_blocks(sh, data, rec, valid),        // read_file_info (U-SHSCAN)
+        lookup_post(sh, data, h, rec, valid, failed, ret),   // get_file_reconstruction_info (U-SHLOOKUP)
+    ensures
+        // a contained hash: the stored record, never not-found
+        /*@C09*/ mdb.file_content@.contains_key(h) ==> (ret matches Some(x) ==> x matches Some(info) && rec_eq(info, mdb.file_content@[h])),
+        // anything else: not found, never a record
+        /*@C09*/ !mdb.file_content@.contains_key(h) ==> (ret matches Some(x) ==> x is None),
+        // an error only after an I/O failure or with 8 or more entries under the truncated hash
+        /*@C09*/ ret is None ==> failed || lk_count(sh, data, h) >= 8,
+{
+    let m = mdb.file_content@;
+    let (sf, sc, fk, fv, ck, cv, hk, hv) = choose|sf: Seq<(MerkleHash, MDBFileInfo)>, sc: Seq<(MerkleHash, Arc<MDBCASInfo>)>,
+            fk: Seq<u64>, fv: Seq<u32>, ck: Seq<u64>, cv: Seq<u32>, hk: Seq<u64>, hv: Seq<(u32, u32)>|
+        is_entries(sf, mdb.file_content@) && is_entries(sc, mdb.cas_content@)
+        && #[trigger] shard_post(sf, sc, mdb, sh, data, fk, fv, ck, cv, hk, hv);
+    let md = sh.metadata; let fsec = file_hdrs(sf); let nf = sf.len() as int; let fio = md.file_info_offset as int; let flo = md.file_lookup_offset as int;
+    assert(table12_at(data, flo, fk, fv) && fk.len() == nf && lk_n(sh) == nf);
+    // every table entry i < nf: key, index, and what read_file_info gives for it
+    assert forall|i: int| 0 <= i < nf implies
+        #[trigger] lk_key(sh, data, i) == spec_truncate(sf[i].0) && valid(lk_idx(sh, data, i))
+        && rec_eq(rec(lk_idx(sh, data, i)), sf[i].1) && sf[i].1.metadata.file_hash == sf[i].0 && m.contains_key(sf[i].0) && m[sf[i].0] == sf[i].1 by {
+        assert(0 <= i < fk.len());
+        let kk = fk[i];
+        assert(decodes(data, flo + 12 * i, Tok::U64(fk[i])));
+        assert(decodes(data, flo + 12 * i + 8, Tok::U32(fv[i])));
+        assert(isx::off(flo, 12, i) == flo + 12 * i);
+        assert(lk_idx(sh, data, i) == fv[i]);
+        let p = file_pos(fio, fsec, i);
+        assert(file_block_ok(data, p, sf[i].1));
+        assert(m.contains_key(sf[i].0));
+        assert(file_hdr_at(data, p) == sf[i].1.metadata);
+        assert(valid(fv[i]));
+        lemma_block_unique(data, p, rec(fv[i]), sf[i].1);
+    }
+    if m.contains_key(h) {
+        let k = choose|k: int| 0 <= k < sf.len() && (#[trigger] sf[k]).0 == h;
+        assert(lk_key(sh, data, k) == spec_truncate(h));
+        if ret is Some {
+            let x = ret->Some_0;
+            if x is None { assert(rec(lk_idx(sh, data, k)).metadata.file_hash == h); assert(false); }
+            let info = x->Some_0;
+            let i = choose|i: int| 0 <= i < lk_n(sh) && #[trigger] lk_key(sh, data, i) == spec_truncate(h) && info == rec(lk_idx(sh, data, i));
+            assert(sf[i].0 == h);
+        }
+    } else {
+        if ret is Some {
+            let x = ret->Some_0;
+            if x is Some {
+                let info = x->Some_0;
+                let i = choose|i: int| 0 <= i < lk_n(sh) && #[trigger] lk_key(sh, data, i) == spec_truncate(h) && info == rec(lk_idx(sh, data, i));
+                assert(sf[i].0 == h);
+                assert(false);
+            }
+        }
+    }
+}
+
+// ---- the in-memory size counter (C09 "size equals the in-memory accounting", C11 insert) -------------------------------------------
+//@ include prelude/ims_counter.rs
+impl std::hash::Hash for MerkleHash {
+    #[verifier::external_body]
+    fn hash<H: std::hash::Hasher>(&self, state: &mut H) { unimplemented!() }
+}
+// contribution of one file record: its block plus its file-lookup entry
+spec fn file_contrib(f: MDBFileInfo) -> int { 48 + 48 * following(f.metadata) + 12 }
+spec fn fc() -> spec_fn(MDBFileInfo) -> int { |f: MDBFileInfo| file_contrib(f) }
+spec fn cc() -> spec_fn(Arc<MDBCASInfo>) -> int { |a: Arc<MDBCASInfo>| cas_contrib(*a) }
+
+// sum of c over the values of a (finite) map
+spec fn msum<V>(m: Map<MerkleHash, V>, c: spec_fn(V) -> int) -> int
+    decreases m.len()
+{
+    if m.len() == 0 { 0 } else {
+        let k = choose|k: MerkleHash| m.contains_key(k);
+        if m.contains_key(k) { c(m[k]) + msum(m.remove(k), c) } else { 0 }
+    }
+}
+// the sum does not depend on which key is taken out first
+proof fn lemma_msum_remove<V>(m: Map<MerkleHash, V>, c: spec_fn(V) -> int, k: MerkleHash)
+    requires m.contains_key(k),
+    ensures msum(m, c) == c(m[k]) + msum(m.remove(k), c),
+    decreases m.len(),
+{
+    assert(m.dom().contains(k));
+    assert(m.len() > 0) by { if m.len() == 0 { m.dom().lemma_len0_is_empty(); assert(false); } }
+    let k0 = choose|k0: MerkleHash| m.contains_key(k0);
+    if k0 != k {
+        lemma_msum_remove(m.remove(k0), c, k);
+        lemma_msum_remove(m.remove(k), c, k0);
+        assert(m.remove(k0).remove(k) =~= m.remove(k).remove(k0));
+    }
+}
+proof fn lemma_msum_insert<V>(m: Map<MerkleHash, V>, c: spec_fn(V) -> int, k: MerkleHash, v: V)
+    ensures msum(m.insert(k, v), c) == msum(m, c) + c(v) - (if m.contains_key(k) { c(m[k]) } else { 0 }),
+{
+    let m1 = m.insert(k, v);
+    lemma_msum_remove(m1, c, k);
+    if m.contains_key(k) {
+        lemma_msum_remove(m, c, k);
+        assert(m1.remove(k) =~= m.remove(k));
+    } else {
+        assert(m1.remove(k) =~= m);
+    }
+}
+proof fn lemma_msum_ge<V>(m: Map<MerkleHash, V>, c: spec_fn(V) -> int, k: MerkleHash)
+    requires m.contains_key(k), forall|v: V| #[trigger] c(v) >= 0,
+    ensures msum(m, c) >= c(m[k]),
+{
+    lemma_msum_remove(m, c, k);
+    lemma_msum_nonneg(m.remove(k), c);
+}
+proof fn lemma_msum_nonneg<V>(m: Map<MerkleHash, V>, c: spec_fn(V) -> int)
+    requires forall|v: V| #[trigger] c(v) >= 0,
+    ensures msum(m, c) >= 0,
+    decreases m.len(),
+{
+    if m.len() != 0 {
+        let k = choose|k: MerkleHash| m.contains_key(k);
+        if m.contains_key(k) { lemma_msum_nonneg(m.remove(k), c); }
+    }
+}
+// ... and equals the sum along the key order
+spec fn ssum<V>(s: Seq<(MerkleHash, V)>, c: spec_fn(V) -> int, k: int) -> int decreases k {
+    if k <= 0 { 0 } else { ssum(s, c, k - 1) + c(s[k - 1].1) }
+}
+proof fn lemma_ssum_prefix<V>(s1: Seq<(MerkleHash, V)>, s2: Seq<(MerkleHash, V)>, c: spec_fn(V) -> int, k: int)
+    requires 0 <= k <= s1.len(), k <= s2.len(), forall|j: int| 0 <= j < k ==> s1[j] == s2[j],
+    ensures ssum(s1, c, k) == ssum(s2, c, k),
+    decreases k,
+{
+    if k > 0 { lemma_ssum_prefix(s1, s2, c, k - 1); }
+}
+proof fn lemma_ssum_mono<V>(s: Seq<(MerkleHash, V)>, c: spec_fn(V) -> int, a: int, b: int)
+    requires 0 <= a <= b <= s.len(), forall|v: V| #[trigger] c(v) >= 0,
+    ensures 0 <= ssum(s, c, a) <= ssum(s, c, b),
+    decreases b,
+{
+    if a < b { lemma_ssum_mono(s, c, a, b - 1); } else if a > 0 { lemma_ssum_mono(s, c, a - 1, a - 1); }
+}
+proof fn lemma_msum_entries<V>(s: Seq<(MerkleHash, V)>, m: Map<MerkleHash, V>, c: spec_fn(V) -> int)
+    requires is_entries(s, m),
+    ensures msum(m, c) == ssum(s, c, s.len() as int),
+    decreases s.len(),
+{
+    if s.len() == 0 {
+    } else {
+        let n = s.len() as int; let k = s[n - 1].0; let s2 = s.drop_last(); let m2 = m.remove(k);
+        assert(m.contains_key(k));
+        lemma_msum_remove(m, c, k);
+        assert forall|i: int| 0 <= i < n - 1 implies (#[trigger] s[i]).0 != k by {
+            assert(hash_lt(s[i].0, s[n - 1].0));
+            lemma_hash_order_total(s[i].0, k);
+        }
+        assert(is_entries(s2, m2)) by {
+            assert forall|i: int| 0 <= i < s2.len() implies m2.contains_key((#[trigger] s2[i]).0) && m2[s2[i].0] == s2[i].1 by {
+                assert(s2[i] == s[i]);
+            }
+            assert forall|q: MerkleHash| m2.contains_key(q) implies exists|i: int| 0 <= i < s2.len() && (#[trigger] s2[i]).0 == q by {
+                let i = choose|i: int| 0 <= i < s.len() && (#[trigger] s[i]).0 == q;
+                assert(s2[i] == s[i]);
+            }
+            assert forall|i: int, j: int| 0 <= i < j < s2.len() implies hash_lt((#[trigger] s2[i]).0, (#[trigger] s2[j]).0) by {
+                assert(s2[i] == s[i] && s2[j] == s[j]);
+            }
+        }
+        lemma_msum_entries(s2, m2, c);
+        lemma_ssum_prefix(s2, s, c, n - 1);
+    }
+}
+// along the key order the contributions add up to the section sizes plus the lookup tables
+proof fn lemma_ssum_files(s: Seq<(MerkleHash, MDBFileInfo)>, k: int)
+    requires 0 <= k <= s.len(),
+    ensures ssum(s, fc(), k) == file_pos(0, file_hdrs(s), k) + 12 * k,
+    decreases k,
+{
+    if k > 0 { lemma_ssum_files(s, k - 1); }
+}
+proof fn lemma_ssum_cas(s: Seq<(MerkleHash, Arc<MDBCASInfo>)>, k: int)
+    requires 0 <= k <= s.len(), forall|q: int| 0 <= q < s.len() ==> cas_info_wf(*(#[trigger] s[q]).1),
+    ensures ssum(s, cc(), k) == cas_pos(0, cas_hdrs(s), k) + 12 * k + 16 * chunk_total(s, k),
+    decreases k,
+{
+    if k > 0 { lemma_ssum_cas(s, k - 1); }
+}
+
+impl FileDataSequenceHeader {
+//@ extract mdb_shard/src/file_structs.rs in `impl FileDataSequenceHeader` fn num_info_entry_following
+//@ ret r
+//@ contract
+        requires 2 * self.num_entries + 1 <= u32::MAX,
+        ensures r == following(*self),
+//@ end
+}
+impl MDBFileInfo {
+//@ extract mdb_shard/src/file_structs.rs in `impl MDBFileInfo` fn num_bytes
+//@ ret r
+//@ contract
+        requires 2 * self.metadata.num_entries + 1 <= u32::MAX,
+        // = the number of bytes `serialize` writes for a well-formed record (48 + 48*following, see MDBFileInfo::serialize above)
+        ensures r == 48 + 48 * following(self.metadata),
+//@ end
+}
+impl MDBCASInfo {
+//@ extract mdb_shard/src/cas_structs.rs in `impl MDBCASInfo` fn num_bytes
+//@ ret r
+//@ contract
+        requires self.chunks@.len() <= u32::MAX,
+        ensures r == 48 + 48 * self.chunks@.len(),
+//@ end
+}
+impl MDBShardInfo {
+//@ extract mdb_shard/src/shard_format.rs in `impl MDBShardInfo` fn non_content_byte_size
+//@ ret r
+//@ contract
+        // header 48 + footer 200 + the two bookends
+        ensures r == 344,
+//@ end
+}
+proof fn lemma_contribs_nonneg()
+    ensures forall|v: MDBFileInfo| #[trigger] fc()(v) >= 0, forall|a: Arc<MDBCASInfo>| #[trigger] cc()(a) >= 0,
+{}
+impl MDBInMemoryShard {
+    // the arithmetic of num_bytes / num_info_entry_following stays inside u32 / usize for every stored record
+    spec fn vals_ok(&self) -> bool {
+        &&& forall|k: MerkleHash| #[trigger] self.cas_content@.contains_key(k) ==> self.cas_content@[k].chunks@.len() <= u32::MAX
+        &&& forall|k: MerkleHash| #[trigger] self.file_content@.contains_key(k) ==> 2 * self.file_content@[k].metadata.num_entries + 1 <= u32::MAX
+    }
+    // THE COUNTER INVARIANT: current_shard_file_size == sum over xorbs (num_bytes + 12 + 16*|chunks|) + sum over files (num_bytes + 12)
+    spec fn counter_inv(&self) -> bool {
+        &&& self.vals_ok()
+        &&& self.current_shard_file_size == msum(self.cas_content@, cc()) + msum(self.file_content@, fc())
+    }
+
+//@ extract mdb_shard/src/shard_in_memory.rs in `impl MDBInMemoryShard` fn shard_file_size
+//@ ret r
+//@ contract
+        requires self.current_shard_file_size + 344 <= u64::MAX,
+        ensures r == self.current_shard_file_size + 344,
+//@ end
+
+//@ extract mdb_shard/src/shard_in_memory.rs in `impl MDBInMemoryShard` fn add_file_reconstruction_info
+//@ ret r
+//@ contract
+        requires
+            old(self).counter_inv(),
+            2 * file_info.metadata.num_entries + 1 <= u32::MAX,
+            old(self).current_shard_file_size + file_contrib(file_info) <= u64::MAX,
+        ensures
+            r is Ok,
+            // the record is filed under its own hash (the key/record agreement `files_ok` needs), replacing a record with that hash
+            /*@C11,C09*/ final(self).file_content@ == old(self).file_content@.insert(file_info.metadata.file_hash, file_info),
+            // the counter invariant is preserved, whether the hash is fresh or replaces a record
+            /*@C09*/ final(self).counter_inv(),
+            final(self).cas_content@ == old(self).cas_content@, final(self).chunk_hash_lookup@ == old(self).chunk_hash_lookup@,
+//@ body-start
+        proof {
+            axiom_merklehash_total_order();
+            lemma_contribs_nonneg();
+            let h = file_info.metadata.file_hash;
+            lemma_msum_insert(self.file_content@, fc(), h, file_info);
+            lemma_msum_nonneg(self.cas_content@, cc());
+            if self.file_content@.contains_key(h) { lemma_msum_ge(self.file_content@, fc(), h); }
+        }
+//@ end
+
+//@ extract mdb_shard/src/shard_in_memory.rs in `impl MDBInMemoryShard` fn add_cas_block
+//@ ret r
+//@ rules R4a R4n
+//@ contract
+        requires
+            old(self).counter_inv(),
+            cas_block_contents.chunks@.len() <= u32::MAX,
+            old(self).current_shard_file_size + cas_contrib(cas_block_contents) <= u64::MAX,
+        ensures
+            r is Ok,
+            // (shared with U-IMS, prelude/ims_counter.rs) stored under its own hash, other entries untouched, counter delta
+            /*@C11,C09*/ add_cas_counter_post(old(self).cas_content@, old(self).current_shard_file_size, final(self).cas_content@,
+                                              final(self).current_shard_file_size, cas_block_contents),
+            /*@C09*/ final(self).counter_inv(),
+            final(self).file_content@ == old(self).file_content@,
+//@ body-start
+        let ghost cas0 = self.cas_content@; let ghost size0 = self.current_shard_file_size; let ghost h = cas_block_contents.metadata.cas_hash;
+        let ghost n = cas_block_contents.chunks@.len() as int;
+        proof {
+            axiom_merklehash_total_order();
+            lemma_contribs_nonneg();
+            lemma_msum_nonneg(self.file_content@, fc());
+            if cas0.contains_key(h) { lemma_msum_ge(cas0, cc(), h); }
+        }
+//@ loop 1
+            invariant
+                *dest_content_v == cas_block_contents, n == cas_block_contents.chunks@.len(), n <= u32::MAX,
+                self.file_content@ == old(self).file_content@, self.cas_content@ == cas0.insert(h, dest_content_v),
+                cas0 == old(self).cas_content@, size0 == old(self).current_shard_file_size, h == cas_block_contents.metadata.cas_hash,
+                size0 + cas_contrib(cas_block_contents) <= u64::MAX,
+                cas0.contains_key(h) ==> size0 >= cas_contrib(*cas0[h]),
+                self.current_shard_file_size == size0 - (if cas0.contains_key(h) { cas_contrib(*cas0[h]) } else { 0 }) + 16 * i,
+//@ before `Ok(())`
+        proof {
+            lemma_msum_insert(cas0, cc(), h, dest_content_v);
+            assert forall|k: MerkleHash| #[trigger] self.cas_content@.contains_key(k) implies self.cas_content@[k].chunks@.len() <= u32::MAX by {
+                if k != h { assert(cas0.contains_key(k)); }
+            }
+        }
+//@ end
+
+//@ extract mdb_shard/src/shard_in_memory.rs in `impl MDBInMemoryShard` fn recalculate_shard_size
+//@ rules R4n
+//@ contract
+        requires
+            old(self).vals_ok(),
+            msum(old(self).cas_content@, cc()) + msum(old(self).file_content@, fc()) <= u64::MAX,
+        ensures
+            // the recomputation establishes the counter invariant (it is what `union` / `difference` call)
+            /*@C09*/ final(self).counter_inv(),
+            final(self).cas_content@ == old(self).cas_content@, final(self).file_content@ == old(self).file_content@,
+            final(self).chunk_hash_lookup@ == old(self).chunk_hash_lookup@,
+//@ body-start
+        let ghost cm = self.cas_content@; let ghost fm = self.file_content@;
+        proof {
+            axiom_merklehash_total_order();
+            lemma_contribs_nonneg();
+            lemma_msum_nonneg(cm, cc()); lemma_msum_nonneg(fm, fc());
+            assert forall|r: Seq<(&MerkleHash, &Arc<MDBCASInfo>)>| #[trigger] iter_entries(r, cm) implies
+                is_entries(own(r), cm) && msum(cm, cc()) == ssum(own(r), cc(), r.len() as int) by {
+                lemma_entries_from_iter(r, cm); lemma_msum_entries(own(r), cm, cc());
+            }
+            assert forall|r: Seq<(&MerkleHash, &MDBFileInfo)>| #[trigger] iter_entries(r, fm) implies
+                is_entries(own(r), fm) && msum(fm, fc()) == ssum(own(r), fc(), r.len() as int) by {
+                lemma_entries_from_iter(r, fm); lemma_msum_entries(own(r), fm, fc());
+            }
+        }
+//@ loop 1
+            invariant
+                cm == self.cas_content@, fm == self.file_content@, self.vals_ok(), *self == *old(self),
+                msum(cm, cc()) + msum(fm, fc()) <= u64::MAX, msum(fm, fc()) >= 0,
+                forall|v: MDBFileInfo| #[trigger] fc()(v) >= 0, forall|a: Arc<MDBCASInfo>| #[trigger] cc()(a) >= 0,
+                forall|r: Seq<(&MerkleHash, &Arc<MDBCASInfo>)>| #[trigger] iter_entries(r, cm) ==> is_entries(own(r), cm) && msum(cm, cc()) == ssum(own(r), cc(), r.len() as int),
+                forall|r: Seq<(&MerkleHash, &MDBFileInfo)>| #[trigger] iter_entries(r, fm) ==> is_entries(own(r), fm) && msum(fm, fc()) == ssum(own(r), fc(), r.len() as int),
+                iter_entries(vx_it1.seq(), cm),
+                num_bytes == ssum(own(vx_it1.seq()), cc(), vx_it1.index@ as int),
+            ensures num_bytes == msum(cm, cc()),
+//@ before `num_bytes += cas_block_contents.num_bytes();`
+            proof {
+                let s = own(vx_it1.seq()); let i = vx_it1.index@ as int;
+                assert(cm.contains_key(*vx_it1.seq()[i].0));
+                lemma_ssum_mono(s, cc(), i + 1, s.len() as int);
+                assert(ssum(s, cc(), i + 1) == ssum(s, cc(), i) + cc()(s[i].1));
+            }
+//@ loop 2
+            invariant
+                cm == self.cas_content@, fm == self.file_content@, self.vals_ok(), *self == *old(self),
+                msum(cm, cc()) + msum(fm, fc()) <= u64::MAX, msum(cm, cc()) >= 0,
+                forall|v: MDBFileInfo| #[trigger] fc()(v) >= 0,
+                forall|r: Seq<(&MerkleHash, &MDBFileInfo)>| #[trigger] iter_entries(r, fm) ==> is_entries(own(r), fm) && msum(fm, fc()) == ssum(own(r), fc(), r.len() as int),
+                iter_entries(vx_it2.seq(), fm),
+                num_bytes == msum(cm, cc()) + ssum(own(vx_it2.seq()), fc(), vx_it2.index@ as int),
+            ensures num_bytes == msum(cm, cc()) + msum(fm, fc()),
+//@ before `num_bytes += file_info.num_bytes();`
+            proof {
+                let s = own(vx_it2.seq()); let i = vx_it2.index@ as int;
+                assert(fm.contains_key(*vx_it2.seq()[i].0));
+                lemma_ssum_mono(s, fc(), i + 1, s.len() as int);
+                assert(ssum(s, fc(), i + 1) == ssum(s, fc(), i) + fc()(s[i].1));
+            }
+//@ end
+}
+// C09 "its size ... equal[s] the in-memory accounting": under the counter invariant, shard_file_size() is exactly the number of bytes
+// serialize_from writes (n below; `size_is_model` is serialize_from's second postcondition, `r == counter + 344` is shard_file_size's)
+proof fn lemma_size_exact(mdb: MDBInMemoryShard, n: int)
+    requires mdb.counter_inv(), cas_ok(mdb.cas_content@), size_is_model(mdb, n),
+    ensures /*@C09*/ n == mdb.current_shard_file_size + 344,
+{
+    let (sf, sc) = choose|sf: Seq<(MerkleHash, MDBFileInfo)>, sc: Seq<(MerkleHash, Arc<MDBCASInfo>)>|
+        is_entries(sf, mdb.file_content@) && is_entries(sc, mdb.cas_content@) && n == #[trigger] model_size(sf, sc);
+    assert forall|q: int| 0 <= q < sc.len() implies cas_info_wf(*(#[trigger] sc[q]).1) by { assert(mdb.cas_content@.contains_key(sc[q].0)); }
+    lemma_msum_entries(sf, mdb.file_content@, fc());
+    lemma_msum_entries(sc, mdb.cas_content@, cc());
+    lemma_ssum_files(sf, sf.len() as int);
+    lemma_ssum_cas(sc, sc.len() as int);
+    lemma_cas_count_le(0, sc, sc.len() as int);
 }
 
 } // verus!
